@@ -126,7 +126,8 @@ def eval_sem(ck, name, cases, recases=None):
         p = ln.split(" ")
         if p[0] == "C":
             res[int(p[1])] = {"fragment": p[2] == "1", "width": p[3] == "1", "ctx_ok": p[4] == "1", "text_ok": p[5] == "1",
-                              "model_sel": p[6] == "1", "wrefs": p[7] == "1", "fragment2": p[8] == "1", "dbs": []}
+                              "model_sel": p[6] == "1", "wrefs": p[7] == "1", "fragment2": p[8] == "1",
+                              "model_text": len(p) > 9 and p[9] == "1", "dbs": []}
         elif p[0] == "D":
             res[int(p[1])]["dbs"].append({"db_ok": p[3] == "1", "absent": p[4] == "1", "oracle": p[5] == "1",
                                           "impl": int(p[6]), "rev": int(p[7]), "model": int(p[8]), "same": p[9] == "1",
@@ -285,6 +286,13 @@ def run_semantic(ck, text_cases, recases=None):
     unbound = [byid[i]["query"] for i, v in res.items() if not v["wrefs"]]
     ck.obligation("every WithRef of the model's SELECT carries the query that the WITH list binds to its alias (%d plans)" % len(res),
                   not unbound, "; ".join(unbound[:3]))
+    off_text = [byid[i] for i, v in res.items() if v["ctx_ok"] and (v["fragment"] or v["fragment2"]) and not v["model_text"]]
+    ck.obligation("the planner model's SQL is the implementation's SQL, byte for byte, on every fragment case of the semantic search "
+                  "(%d cases: regexp stages, relabelling orders, cluster-inlined and Plan(script,false) texts that the general generator does not emit)"
+                  % sum(1 for v in res.values() if v["ctx_ok"] and (v["fragment"] or v["fragment2"])),
+                  not off_text, "%d differ; first: %s" % (len(off_text), off_text[0]["query"] if off_text else ""))
+    if off_text and not getattr(ck, "sql_mismatch_cases", None):
+        ck.sql_mismatch_cases = [{"query": c["query"], "ctx": c["ctx"], "diff": "model text differs from the implementation's (semantic-search case)"} for c in off_text[:20]]
     ck.obligation("failing-input search: render(prep(sqlparse(SQL))) = SQL on every fragment case (%d cases)" % len(res),
                   not not_text_ok, "; ".join(c["query"] for c in not_text_ok[:3]))
     ck.obligation("failing-input search machinery: generated databases satisfy db_ok; the extracted model agrees with logql_log_partial / logql_log_partial_parsers on %d guarded evaluations" % theorem_evals,
